@@ -13,11 +13,11 @@ import tlc
 
 VERIF = tlc.VERIF
 REPO = os.environ.get("VERIF_REPO", "/repo")
-HARNESS_DIR = os.path.join(VERIF, "harness")
+HARNESS_DIR = os.environ.get("VERIF_HARNESS_DIR", os.path.join(VERIF, "harness"))
 HARNESS = os.path.join(HARNESS_DIR, "target", "release", "harness")
 WORK = tlc.WORK
-REPLAYS = os.path.join(VERIF, "replays")
-EVIDENCE = os.path.join(VERIF, "evidence")
+REPLAYS = os.path.join(tlc.OUT, "replays")
+EVIDENCE = os.path.join(tlc.OUT, "evidence")
 KNOWN = os.path.join(VERIF, "known_findings.json")
 
 
